@@ -25,6 +25,14 @@ class AbsOperand:
     has_arg: bool
 
 
+class _Continue(Exception):
+    pass
+
+
+class _Break(Exception):
+    pass
+
+
 class _Return(Exception):
     def __init__(self, value):
         self.value = value
@@ -89,11 +97,23 @@ class SeqInterp:
             it = self.expr(st.iter)
             if not isinstance(it, list):
                 raise SeqUnsupported(f'loop over {ast.unparse(st.iter)}')
+            broke = False
             for item in list(it):
                 self.bind(st.target, item)
-                self.block(st.body)
-            self.block(st.orelse)
+                try:
+                    self.block(st.body)
+                except _Continue:
+                    continue
+                except _Break:
+                    broke = True
+                    break
+            if not broke:
+                self.block(st.orelse)
             return
+        if isinstance(st, ast.Continue):
+            raise _Continue()
+        if isinstance(st, ast.Break):
+            raise _Break()
         if isinstance(st, ast.Return):
             raise _Return(self.expr(st.value) if st.value is not None else None)
         if isinstance(st, ast.Pass):
